@@ -897,6 +897,12 @@ def c19(W, replay=None):
                 raise Infra("SecretSync violates %s" % viol)
             hs = sample(W, W.scenarios_from(out), 6000 if thorough else (700 if rc <= 3 else 150))
             scen += [{"id": "c19/refs%d/%d" % (rc, i), "refs": h["refs"], "events": h["events"]} for i, h in enumerate(hs)]
+            # random walks of the same specification: full histories with no-op steps in them
+            cfg = cfg_text("Spec", dict(RefCase=rc, Names='{"n1", "n2"}', Vals='{"v1", "v2"}', MaxLen=14, Export="TRUE"), ["PrintFull"])
+            out, gen, dist, viol, d = W.tlc("SecretSync", cfg, "secretsync-walk-%d" % rc, workers=1, simulate="num=%d" % (2000 if thorough else 250),
+                                            extra=["-depth", "14", "-seed", str(W.seed + rc)], timeout=900)
+            ws = sample(W, W.scenarios_from(out), 3000 if thorough else 300)
+            scen += [{"id": "c19/walk%d/%d" % (rc, i), "refs": h["refs"], "events": h["events"]} for i, h in enumerate(ws)]
         # start-up: cross-namespace references are refused, a reference naming the controller's own namespace is not
         ev = [{"op": "set", "name": "n1", "v": "v1"}, {"op": "reconcile", "name": "n1", "v": ""}]
         scen += [{"id": "c19/startup/cross-ns-first", "refs": ["n1", "lit", "n2"], "refNs": ["other", "", ""], "crossNs": True, "events": ev},
